@@ -8,14 +8,16 @@
     Hypotheses, all visible in the statements:
     - [params_ok P]: asset limits are not negative (types/params.go validates this);
     - [escrow_empty b]: the module account holds nothing at genesis;
-    - [wf_op]: the signer of a create message is not a module account (module accounts cannot sign)
-      and its recipient is not the htlc module account itself (that is a donation to escrow, outside
-      the property; the recipient being any other blocked module account is refused by the code).
+    - [wf_op]: the signer of a create message is not a module account (module accounts cannot sign), and
+      the history contains no parameter change ([SetParams]; see Props/C04.v for what survives one).
+      (A recipient equal to a blocked module account or - since "fix: htlc CreateHTLC rejects a
+      recipient equal to the htlc module account" - to the htlc account itself is refused by the code,
+      and by the model; no hypothesis on recipients is needed any more.)
     Hashes are identifiers: a hash lock IS its pre-image (secret, timestamp), a contract id IS its
     pre-image (hash lock, sender, recipient, amount); the harness checks the real SHA-256 values.
 
     Every statement is closed by [exact] of a lemma of [Htlc/Proofs.v]. *)
-From Irismod Require Import Htlc.Model Htlc.Proofs Htlc.Examples Htlc.Check Htlc.Sound.
+From Irismod Require Import Htlc.Model Htlc.Proofs Htlc.Examples Htlc.Check Htlc.Sound Htlc.Passes Htlc.PassesEx.
 
 (** ** Reachable states satisfy the invariant (induction over the history) *)
 Theorem reachable_invariant :
@@ -181,6 +183,29 @@ Theorem c03_checked_states_satisfy_invariant :
     /\ st_params (case_state k n) = k_params k.
 Proof. exact checked_states_satisfy_invariant. Qed.
 Print Assumptions c03_checked_states_satisfy_invariant.
+
+(** ** model_passes_check: the checker, fed the MODEL's own observations, answers (-1, -1, 0) for both
+    properties.  [Vw k nd s code o] says that the observation [o] is the projection of the model state
+    [s] (contracts by table position, queue, balance sheet of the case's accounts over [nd] denoms, asset
+    supplies, bank supplies, clock) with result code [code]; [trace_ok] says that every step's diff
+    decodes to the projection of the model's next state; [table_ok]: the id table has no duplicates, at
+    most 100 actors, distinct asset denoms, parties of the table's ids inside the universe and no
+    negative denoms.  Consequence: on code that agrees with the model the check can not raise an alarm,
+    and the clauses of [p03] / [p04] are consequences of the invariant. *)
+Theorem c03_model_passes_check :
+  forall (k : case) (nd : nat),
+    hyps_b k = true -> table_ok k ->
+    Vw k nd (case_init k) 0 (k_obs0 k) ->
+    trace_ok k nd (case_init k) (k_obs0 k) (k_steps k) ->
+    check_case_C03 k = (-1, -1, 0) /\ check_case_C04 k = (-1, -1, 0).
+Proof. exact model_passes_check_lemma. Qed.
+Print Assumptions c03_model_passes_check.
+
+(** its hypotheses hold of a concrete case built from the model's run of the example history *)
+Example c03_model_passes_check_nonvacuous :
+  hyps_b exCase = true /\ table_ok exCase /\ Vw exCase 5 (case_init exCase) 0 (k_obs0 exCase)
+  /\ trace_ok exCase 5 (case_init exCase) (k_obs0 exCase) (k_steps exCase) /\ length (k_steps exCase) = 13%nat.
+Proof. split; [exact exCase_hyps|]. split; [exact exCase_table|]. split; [exact exCase_init_view|]. split; [exact exCase_trace|reflexivity]. Qed.
 
 (** ** Non-vacuity: the hypotheses hold of a concrete history ([Htlc/Examples.v]) that walks all
     three kinds of contract through claim, refund, duplicate, wrong secret, second claim, claim in
